@@ -358,10 +358,154 @@ class Gen:
                 m = {"proposal": {"payload": 150 + rng.below(20), "j": {"timeout": q}}}
             self.emit({"t": "byz", "key": b, "sig_ok": True, "m": m, "targets": self.targets()})
 
+
+    # ---- directed family "commit then timeout" (the canonical safety-critical pattern) ----
+    def committee_directed(self):
+        """weighted committees in which one or two heavy validators weigh a sub-quorum or most of it"""
+        rng = self.rng
+        ws = rng.shuffle(rng.choice([[5, 1, 1, 1, 1, 1, 1], [3, 3, 1, 1, 1, 1, 1], [4, 2, 1, 1, 1, 1], [5, 1, 1, 1, 1, 1, 1]]))
+        n = len(ws)
+        ranks = sorted(rng.shuffle(list(range(16)))[:n])
+        c = list(zip(ranks, ws))
+        total = sum(ws)
+        f = (total - 1) // 5
+        lights = [r for r, w in c if w == 1]
+        # a Byzantine light member only if the honest nodes minus one light node still hold a quorum
+        byz = rng.choice(lights) if (f >= 1 and total - 2 >= M.quorum(c) and rng.chance(1, 2)) else None
+        return c, [r for r in ranks if r != byz], byz, f
+
+    def deliver_where(self, k, pred):
+        for i in self.T.unseen(k, pred):
+            self.emit({"t": "deliver", "k": k, "i": i})
+
+    def commit_then_timeout(self, c, honest, byz, f):
+        """View v: the leader proposes A; chosen voters vote; exactly one light node (sometimes
+        nobody) receives the quorum of commit votes and commits A; the others time out in v and
+        assemble the TimeoutQC from a chosen signer subset (non-voters first, then the heavy voters
+        of A, then as few light voters as needed); then the synchronous suffix.  Variants: few
+        voters (a fresh proposal is legal), nobody commits, everybody votes, the committed node
+        crashes at the completing vote or is stopped, a Byzantine light member votes too and/or
+        reports a conflicting high vote."""
+        T, rng = self.T, self.rng
+        N, wt, q = T.N, dict(c), M.quorum(c)
+        leader = lambda v: c[v % len(c)][0]
+        node_of = {r: k for k, r in enumerate(honest)}
+        for _ in range(rng.below(3)):
+            self.note("directed:warmup_round")
+            self.emit({"t": "round"})
+        found = None
+        for _ in range(10):
+            for _ in range(2):
+                for k in range(N):
+                    self.deliver_where(k, lambda m: m["kind"] != 0)
+            for k in range(N):
+                for _ in range(6):
+                    if T.nblocks[k] >= max(T.nblocks):
+                        break
+                    self.emit({"t": "sync", "k": k})
+            V = T.view[0]
+            if all(T.view[k] == V and T.phase[k] == 0 for k in range(N)) and leader(V + 1) in honest and leader(V) in honest:
+                props = [i for i, m in enumerate(T.soup) if m["kind"] == 0 and m["view"] == V and m["key"] == leader(V)
+                         and all(i not in T.seen[k] for k in range(N))]
+                if props:
+                    found = (V, props[-1])
+                    break
+            for k in range(N):
+                self.emit({"t": "timer", "k": k})
+        if not found:
+            self.note("directed:no_clean_view")
+            self.directed_variant = "none"
+            return
+        V, ip = found
+        lights = [r for r in honest if wt[r] == 1]
+        heavies = [r for r in honest if wt[r] > 1]
+        hw = sum(wt[r] for r in honest)
+        cands = [r for r in lights if r != leader(V + 1) and hw - wt[r] >= q]
+        z = 0 if self.force_commit_one else rng.below(8)
+        variant = "commit_one" if z < 5 else ("nobody_commits" if z == 5 else ("few_voters" if z == 6 else "all_vote"))
+        if not cands and variant in ("commit_one", "all_vote"):
+            variant = "nobody_commits"
+        C = rng.choice(cands) if variant in ("commit_one", "all_vote") else None
+        # voters of A
+        if variant == "few_voters":
+            voters = rng.shuffle(lights)[:rng.range(1, 2)]
+        elif variant == "all_vote":
+            voters = list(honest)
+        else:
+            voters = ([C] if C is not None else []) + heavies
+            for r in rng.shuffle([r for r in lights if r != C]):
+                if sum(wt[x] for x in voters) >= q:
+                    break
+                voters.append(r)
+        self.directed_variant = variant
+        self.note("directed:" + variant)
+        for r in voters:
+            self.emit({"t": "deliver", "k": node_of[r], "i": ip})
+        voted = {m["key"] for m in T.soup if m["kind"] == 1 and m["view"] == V and m["key"] in honest}
+        byz_votes = byz is not None and rng.chance(1, 2)
+        if byz_votes and voted and C is not None:
+            self.note("directed:byz_votes_too")
+            self.emit({"t": "byz_echo", "key": byz, "kind": 1, "back": 0, "alt": None, "targets": [node_of[C]]})
+        # the certificate at exactly one node
+        stopped = None
+        if C is not None:
+            kc = node_of[C]
+            h0 = T.nblocks[kc]
+            idx = rng.shuffle(T.unseen(kc, lambda m: m["kind"] == 1 and m["view"] == V))
+            crash = rng.chance(1, 3)
+            w, keys = (wt[byz] if byz_votes and voted else 0), set()
+            for i in idx:
+                key = T.soup[i]["key"]
+                completes = key not in keys and w < q <= w + wt.get(key, 0)
+                keys.add(key)
+                w += wt.get(key, 0)
+                if completes and crash:
+                    self.note("directed:crash_at_completing_vote")
+                    self.emit({"t": "crash_deliver", "k": kc, "i": i, "cp": rng.choice([0, 0, 1]), "applied": rng.chance(1, 2)})
+                else:
+                    self.emit({"t": "deliver", "k": kc, "i": i})
+                if T.nblocks[kc] > h0:
+                    break
+            if T.nblocks[kc] > h0:
+                self.note("directed:one_node_committed")
+            if not crash and rng.chance(1, 5):
+                self.note("directed:committed_node_stopped")
+                self.emit({"t": "stop", "k": kc})
+                stopped = kc
+        # everybody else times out in view V
+        O = [k for k in range(N) if C is None or k != node_of[C]]
+        for k in O:
+            self.emit({"t": "timer", "k": k})
+        if byz is not None and rng.chance(1, 2):
+            self.note("directed:byz_conflicting_high_vote")
+            self.emit({"t": "byz_echo", "key": byz, "kind": 2, "back": rng.below(len(O)), "alt": 400 + rng.below(50), "targets": O})
+        okeys = [honest[k] for k in O]
+        if variant == "all_vote":
+            order = rng.shuffle(okeys)
+        else:
+            order = (rng.shuffle([r for r in okeys if r not in voted]) + [r for r in okeys if r in voted and wt[r] > 1] +
+                     rng.shuffle([r for r in okeys if r in voted and wt[r] == 1]))
+        S, w = [], 0
+        for r in order:
+            if w >= q:
+                break
+            S.append(r)
+            w += wt[r]
+        tix = [i for i, m in enumerate(T.soup) if m["kind"] == 2 and m["view"] == V and m["key"] in S]
+        for k in O:
+            for i in rng.shuffle(tix):
+                if T.view[k] > V:
+                    break
+                if i not in T.seen[k]:
+                    self.emit({"t": "deliver", "k": k, "i": i})
+        if stopped is not None and rng.chance(2, 3):
+            self.emit({"t": "restart", "k": stopped})
+
     # ---- a case ----
-    def run(self):
+    def run(self, directed=False):
         rng, opts = self.rng, self.opts
-        c, honest, byz, f = self.committee()
+        self.force_commit_one = directed == "commit_one"
+        c, honest, byz, f = self.committee_directed() if directed else self.committee()
         self.F = rng.choice([0, 0, 1, 7])
         header = {"committee": M.committee_json(c), "nodes": honest, "first_block": str(self.F), "max_payload": 100, "ops": []}
         self.T = Tracker(c, honest, byz)
@@ -375,7 +519,9 @@ class Gen:
         budget = rng.range(opts.get("prefix_min", 30), opts.get("prefix_ops", 120))
         hang = False
         try:
-            while len(self.ops) < budget:
+            if directed:
+                self.commit_then_timeout(c, honest, byz, f)
+            while not directed and len(self.ops) < budget:
                 rng.choice(tactics)()
             # the good period: faulty weight (Byzantine + stopped) must be at most f
             wt = dict(c)
@@ -388,7 +534,7 @@ class Gen:
                     faulty += wt[honest[k]]
             suffix_start = len(self.ops)
             down = [k for k in range(self.T.N) if self.T.alive[k] == 2]
-            noisy = byz is not None and rng.chance(1, 2)
+            noisy = byz is not None and rng.chance(1, 2) and not directed
             self.case_meta = {"byz": byz, "down": down}
             kf = faulty_run({"_c": c, "_meta": self.case_meta, "nodes": honest})
             for _ in range(max(opts.get("rounds", 10), round_bound(kf) + 1)):
@@ -405,7 +551,8 @@ class Gen:
         case["ops"] = self.ops
         case["_c"] = c
         case["_kinds"] = self.kinds
-        case["_meta"] = {"byz": byz, "f": f, "suffix_start": suffix_start, "down": down, "noisy_suffix": noisy}
+        case["_meta"] = {"byz": byz, "f": f, "suffix_start": suffix_start, "down": down, "noisy_suffix": noisy,
+                         "directed": getattr(self, "directed_variant", None)}
         out = {"obs": [self.drv.init] + self.obs + [summary["blocks"]], "soup": summary["soup"], "blocks": summary["blocks"]}
         if hang:
             out["hang"] = True
@@ -413,8 +560,8 @@ class Gen:
         return case, out
 
 
-def gen_case(rng, opts):
-    return Gen(rng, opts).run()
+def gen_case(rng, opts, directed=False):
+    return Gen(rng, opts).run(directed)
 
 
 # ---------------------------------------------------------------------------
@@ -643,9 +790,11 @@ def run_sim_cases(rep, prop, opts, n, rng, broken, extra_cases=()):
                 raise common.MachineryError(f"sim harness crashed on a corpus case: {str(o)[:800]}")
             cases.append(c)
             outs.append(o)
-    rngs = [rng.fork() for _ in range(n)]
+    # a fixed quarter of the schedules (at least 2) belongs to the directed family "commit then timeout"
+    # (every other one of them is the plain variant: one node commits, the others time out)
+    rngs = [(rng.fork(), "commit_one" if i % 8 == 1 else (i % 4 == 1 or (n < 8 and i < min(2, n)))) for i in range(n)]
     with ThreadPoolExecutor(max_workers=opts.get("workers", 12)) as ex:
-        for case, out in ex.map(lambda r: gen_case(r, opts), rngs):
+        for case, out in ex.map(lambda r: gen_case(r[0], opts, r[1]), rngs):
             cases.append(case)
             outs.append(out)
     t_gen = time.time() - t0
